@@ -251,6 +251,26 @@ def _prefixes_inner(ds, ref, dem, log, n, top, st, report, keep):
 
 
 def _point_access(program, ref, dem, n, top, st, report):
+    # (c') an index that does not exist has no result: nothing may be evaluated for it
+    if ref.indexable and ref.sized and ref.finite:
+        for i in (n, -n - 1):
+            log3 = []
+            try:
+                ds3 = build_real(program, log3)
+                try:
+                    _ = ds3[i]
+                except IndexError:
+                    pass
+                except BaseException:       # noqa: BLE001
+                    continue
+                else:
+                    continue            # returning a value is C02's business
+            except BaseException:       # noqa: BLE001
+                break
+            st['transitions'] += 1
+            if log3:
+                report(f'access-out-of-range-evaluates/{top}', f'ds[{i}] (out of range) called {log3} before raising IndexError')
+                break
     # (c) point access on a fresh object
     for i in range(n):
         if dem.rand[i] is None and (dem.keyrand is None or dem.keyrand[i] is None):
